@@ -1,7 +1,7 @@
 (* SgWriteLemmas.v -- spatial-graph, the write side: SgBackend.write (position unsquished into one property per axis,
    write_arrays, read_to_memory) followed by SgBackend.construct gives a graph with the same SgGraphAdapter view. *)
 From Geff Require Import Base Dtype DtypeLemmas Vlen VlenLemmas Tree TreeLemmas Validate Write Read RoundTrip WriteLemmas ReadLemmas
-     ValidateLayout C01Lemmas Dicts Backends BackendsLemmas DictsLemmas SgLemmas.
+     ValidateLayout C01Lemmas Dicts Backends BackendsLemmas DictsLemmas SgLemmas Names.
 From Coq Require Import Lia.
 Open Scope string_scope.
 Open Scope list_scope.
@@ -238,11 +238,11 @@ Record sgc_dom (s : sgc) (names : list string) (ids : list Z) (es : list (Z * Z)
   sgd_ndims : sc_ndims s = length names;
   sgd_names_nodup : NoDup names;
   sgd_names_ne : names <> [];
-  sgd_names_fresh : forall nm, In nm names -> nm <> "" /\ ~ In nm (akeys (sc_nattrs s));
+  sgd_names_fresh : forall nm, In nm names -> name_ok nm = true /\ ~ In nm (akeys (sc_nattrs s));
   sgd_nkeys : NoDup (akeys (sc_nattrs s));
-  sgd_nkeys_ne : forall nm, In nm (akeys (sc_nattrs s)) -> nm <> "";
+  sgd_nkeys_ne : forall nm, In nm (akeys (sc_nattrs s)) -> name_ok nm = true;
   sgd_ekeys : NoDup (akeys (sc_eattrs s));
-  sgd_ekeys_ne : forall nm, In nm (akeys (sc_eattrs s)) -> nm <> "";
+  sgd_ekeys_ne : forall nm, In nm (akeys (sc_eattrs s)) -> name_ok nm = true;
   sgd_pos : alookup (sc_pos s) (sc_nattrs s) = Some P;
   sgd_pshape : a_shape P = [length ids; length names];
   sgd_nattrs : Forall (fun kv => sg_arr_ok (length ids) (snd kv)) (sc_nattrs s);
@@ -292,13 +292,13 @@ Proof. induction 1 as [|x l Hx Hl IH]; cbn [dedup]; [reflexivity|]. rewrite IH. 
   apply String.eqb_eq in E. subst. contradiction. Qed.
 
 (* geff.write(spatial graph, axis_names=names) ; read_to_memory *)
-Theorem sg_write_read s names ids es P mdtok axtok : sgc_dom s names ids es P ->
+Theorem sg_write_read k s names ids es P mdtok axtok : sgc_dom s names ids es P ->
   let nps1 := adel (sc_pos s) (map mkp (sc_nattrs s)) ++ axis_cols P names in
   let eps := map mkp (sc_eattrs s) in
   exists post md',
-    run (api_write KObj (sg_write KObj s None (Some names) mdtok axtok)) None = (Some post, Ok tt) /\
-    validate_structure KObj (Some post) = Ok tt /\
-    read_to_memory KObj (Some post) true None None = Ok (mkmg md' (sc_nodes s) (sc_edges s) nps1 eps) /\
+    run (api_write k (sg_write k s None (Some names) mdtok axtok)) None = (Some post, Ok tt) /\
+    validate_structure k (Some post) = Ok tt /\
+    read_to_memory k (Some post) true None None = Ok (mkmg md' (sc_nodes s) (sc_edges s) nps1 eps) /\
     md_directed md' = sc_directed s /\
     sg_dom (mkmg md' (sc_nodes s) (sc_edges s) nps1 eps) (sc_pos s) ids es names (a_dt P) /\
     exists cg, canon_geff (mkmg md' (sc_nodes s) (sc_edges s) nps1 eps) = Ok cg /\ canon_sg s names (akeys nps1) (akeys eps) = Ok cg.
@@ -330,14 +330,14 @@ Proof.
   { intros kv Hin. unfold nps1 in Hin. apply in_app_iff in Hin. destruct Hin as [Hin|Hin].
     - apply in_adel in Hin. destruct Hin as [Hin _]. unfold nps0 in Hin. apply in_map_iff in Hin. destruct Hin as [[nm a] [<- Hin]].
       cbn [mkp fst snd]. split.
-      + apply (sgd_nkeys_ne _ _ _ _ _ Hd). apply in_map_iff. exists (nm, a). split; [reflexivity | exact Hin].
+      + apply name_ok_nonempty. apply (sgd_nkeys_ne _ _ _ _ _ Hd). apply in_map_iff. exists (nm, a). split; [reflexivity | exact Hin].
       + exists a. split; [reflexivity|]. pose proof (sgd_nattrs _ _ _ _ _ Hd) as HF. eapply Forall_forall in HF; eauto. exact HF.
     - destruct (in_axis_cols P names kv Hin) as [ix [Hix [Hnm Hv]]]. split.
-      + rewrite <- Hnm. apply (sgd_names_fresh _ _ _ _ _ Hd). apply nth_In. exact Hix.
+      + rewrite <- Hnm. apply name_ok_nonempty. apply (sgd_names_fresh _ _ _ _ _ Hd). apply nth_In. exact Hix.
       + eexists. split; [exact Hv|]. eapply col_arr_ok; eauto. }
   assert (Halle : forall kv, In kv eps -> fst kv <> "" /\ exists a, snd kv = mkprop (PFixed a) None /\ sg_arr_ok e a).
   { intros kv Hin. unfold eps in Hin. apply in_map_iff in Hin. destruct Hin as [[nm a] [<- Hin]]. cbn [mkp fst snd]. split.
-    - apply (sgd_ekeys_ne _ _ _ _ _ Hd). apply in_map_iff. exists (nm, a). split; [reflexivity | exact Hin].
+    - apply name_ok_nonempty. apply (sgd_ekeys_ne _ _ _ _ _ Hd). apply in_map_iff. exists (nm, a). split; [reflexivity | exact Hin].
     - exists a. split; [reflexivity|]. pose proof (sgd_eattrs _ _ _ _ _ Hd) as HF. eapply Forall_forall in HF; eauto. exact HF. }
   assert (Hnde : NoDup (akeys eps)) by (unfold eps; rewrite akeys_mkp; exact (sgd_ekeys _ _ _ _ _ Hd)).
   assert (Hwfp : forall cnt (ps : props), (forall kv, In kv ps -> fst kv <> "" /\ exists a, snd kv = mkprop (PFixed a) None /\ sg_arr_ok cnt a) ->
@@ -409,9 +409,9 @@ Proof.
         destruct (In_nth _ _ "" Hnm) as [ix [Hix Hnth]]. exists (col_of P ix), n. split.
         * rewrite <- Hnth. apply alookup_some_in. apply Haxis. exact Hix.
         * apply (col_of_facts P n (length names) ix Hps). }
-  destruct (write_then_read KObj None w' md0 md' n e false I Hwf Hfm) as [tr [post [Hwr [Hval Hrd]]]].
+  destruct (write_then_read k None w' md0 md' n e false I Hwf Hfm) as [tr [post [Hwr [Hval Hrd]]]].
   set (mg := mkmg md' (sc_nodes s) (sc_edges s) nps1 eps).
-  assert (Hrd' : read_to_memory KObj (Some post) true None None = Ok mg).
+  assert (Hrd' : read_to_memory k (Some post) true None None = Ok mg).
   { rewrite Hrd. unfold w'. cbn [w_nids w_eids w_nprops w_eprops]. unfold props in *; rewrite (backfill_nonempty' _ md0 nps1 m Hlen0).
     unfold up_props. rewrite Hupn, Hupe. reflexivity. }
   assert (Hwfg : wf_geff mg ids es).
@@ -437,9 +437,10 @@ Proof.
     - exact Hsge.
     - cbn [g_nprops mg]. rewrite Hkeys1. intro Hin. apply in_app_iff in Hin. destruct Hin as [Hin|Hin]; [exact (adel_keys_notin pos nps0 Hin) | exact (Hposnames Hin)].
     - intros nm Hin. destruct (In_nth _ _ "" Hin) as [ix [Hix Hnth]]. exists (col_of P ix). cbn [g_nprops mg]. rewrite <- Hnth. split; [apply Haxis; exact Hix|].
-      destruct (col_of_facts P n (length names) ix Hps) as [H1 [H2 _]]. auto. }
+      destruct (col_of_facts P n (length names) ix Hps) as [H1 [H2 _]]. auto.
+    - destruct HPok as [_ [[Hs1 _]|[k8 [_ [_ H8]]]]]; [rewrite Hps in Hs1; discriminate | exact H8]. }
   exists post, md'. split; [|split; [exact Hval|split; [exact Hrd'|split; [reflexivity|split; [exact Hsgdom|]]]]].
-  - apply (run_api_write_sg KObj _ post tr). unfold sg_write, bind, lift. rewrite Hpos.
+  - apply (run_api_write_sg k _ post tr). unfold sg_write, bind, lift. rewrite Hpos.
     change (mapM _ (combine (seq 0 (length names)) names)) with
       (mapM (fun ix : nat * string => match roi_of P (fst ix) with
                                       | Ok mm => Ok (mkax (snd ix) (Some (fst mm)) (Some (snd mm)) axtok)
@@ -448,9 +449,9 @@ Proof.
     assert (Hnodup : has_dup names = false).
     { unfold has_dup. apply negb_false_iff. apply Nat.eqb_eq. f_equal. apply dedup_id. exact (sgd_names_nodup _ _ _ _ _ Hd). }
     rewrite Hnodup. rewrite (sgd_ndims _ _ _ _ _ Hd), Nat.eqb_refl. cbn [negb andb]. unfold ret.
-    change (write_arrays_u KObj (mkwg (sc_nodes s) (sc_edges s) (Some nps0) (Some eps)) md0 (Some (pos, names)) true false (init None)
+    change (write_arrays_u k (mkwg (sc_nodes s) (sc_edges s) (Some nps0) (Some eps)) md0 (Some (pos, names)) true false (init None)
             = (mkst (Some post) tr, Ok tt)).
-    etransitivity; [exact (write_arrays_u_unsquish KObj (sc_nodes s) (sc_edges s) nps0 nps1 (Some eps) md0 pos names true false (init None) m Hlen0 Hunsq)|].
+    etransitivity; [exact (write_arrays_u_unsquish k (sc_nodes s) (sc_edges s) nps0 nps1 (Some eps) md0 pos names true false (init None) m Hlen0 Hunsq)|].
     exact Hwr.
   - (* the adapter view of the written graph = the canonical view of what was stored *)
     exists (mkcg (md_directed (g_md mg)) (combine ids (rows_of_props (g_nprops mg) (length ids)))
@@ -488,17 +489,17 @@ Qed.
 (* spatial-graph round trip: write with the axis names, read through the same backend -- the SgGraphAdapter view of the
    graph read back equals the view of the graph that was written (ids, edges, directedness, every attribute incl. the
    position components under the axis names, values and value kinds) *)
-Theorem sg_roundtrip s names ids es P mdtok axtok : sgc_dom s names ids es P ->
+Theorem sg_roundtrip k s names ids es P mdtok axtok : sgc_dom s names ids es P ->
   exists post mg s' cg,
-    run (api_write KObj (sg_write KObj s None (Some names) mdtok axtok)) None = (Some post, Ok tt) /\
-    validate_structure KObj (Some post) = Ok tt /\
-    read_to_memory KObj (Some post) true None None = Ok mg /\
+    run (api_write k (sg_write k s None (Some names) mdtok axtok)) None = (Some post, Ok tt) /\
+    validate_structure k (Some post) = Ok tt /\
+    read_to_memory k (Some post) true None None = Ok mg /\
     sg_construct mg (sc_pos s) = Ok s' /\
     canon_sg s' names (akeys (g_nprops mg)) (akeys (g_eprops mg)) = Ok cg /\
     canon_sg s names (akeys (g_nprops mg)) (akeys (g_eprops mg)) = Ok cg /\
     sc_directed s' = sc_directed s /\ sc_ndims s' = sc_ndims s /\ sc_nodes s' = sc_nodes s /\ sc_edges s' = sc_edges s.
 Proof.
-  intros Hd. destruct (sg_write_read s names ids es P mdtok axtok Hd) as [post [md' [Hw [Hval [Hr [Hdir [Hdom [cg [Hcg Hcs]]]]]]]]].
+  intros Hd. destruct (sg_write_read k s names ids es P mdtok axtok Hd) as [post [md' [Hw [Hval [Hr [Hdir [Hdom [cg [Hcg Hcs]]]]]]]]].
   cbv zeta in *.
   destruct (sg_construct_canon _ (sc_pos s) ids es names (a_dt P) cg Hdom Hcg) as [s' [Hs' [Hv [H1 [H2 [H3 H4]]]]]].
   eexists post, _, s', cg. split; [exact Hw|]. split; [exact Hval|]. split; [exact Hr|]. split; [exact Hs'|].
